@@ -52,6 +52,9 @@ pub enum Fault {
     /// (closes, or resets) without waiting. The server (and the client) run under a descriptor limit of `limit` sockets: flows
     /// that are not released when their application leaves use the limit up
     AbandonedFlows { n: u32, limit: u32, reset: bool },
+    /// QUIC cells: the datagram link between client and server is dead for `ms` milliseconds while `flows` ordinary flows
+    /// are attempted (their QUIC handshakes fall into the outage); then it works again
+    QuicOutage { ms: u64, flows: u32 },
     /// QUIC cells: datagrams to the server's QUIC port - random bytes, or something shaped like a long-header Initial packet
     DgramToServer { bytes: Vec<u8>, n: u32 },
     /// many connections to the server's port at once, each sending these bytes (a partial TLS hello, a partial upgrade,
@@ -75,6 +78,7 @@ pub fn fault_name(f: &Fault) -> String {
         Fault::ResetFlow { by_app } => format!("reset-by-{}", if *by_app { "application" } else { "target" }),
         Fault::AcceptErr { on_client, .. } => format!("accept-emfile-{}", if *on_client { "client" } else { "server" }),
         Fault::FdExhaustion { on_client, .. } => format!("descriptors-exhausted-{}", if *on_client { "client" } else { "server" }),
+        Fault::QuicOutage { .. } => "quic-link-outage-during-handshakes".to_owned(),
         Fault::AbandonedFlows { .. } => "flows-abandoned-by-their-applications-under-a-descriptor-limit".to_owned(),
         Fault::QuicBadHandshake { kind } => format!("quic-handshake-{}", ["foreign-alpn", "no-alpn", "untrusted-certificate", "abandoned"][*kind as usize % 4]),
         Fault::QuicStalledHandshake => "quic-handshake-stalled".to_owned(),
@@ -97,6 +101,9 @@ fn raw_kind(b: &[u8]) -> &'static str {
 pub fn gen_fault(g: &mut Gen, transport: Transport) -> Fault {
     if transport == Transport::Quic && g.chance(15) {
         return Fault::QuicStalledHandshake;
+    }
+    if transport == Transport::Quic && g.chance(12) {
+        return Fault::QuicOutage { ms: g.range(3_000, 14_000), flows: g.range(1, 3) as u32 };
     }
     if transport == Transport::Quic && g.chance(25) {
         return Fault::QuicBadHandshake { kind: g.below(4) as u8 };
@@ -270,6 +277,27 @@ async fn inject(ix: usize, f: &Fault, held: &mut Held) {
             tokio::task::yield_now().await;
             held._tasks.push(spawn_scoped(run_app(120 + ix, fl, obs, true)));
             tokio::time::sleep(Duration::from_millis(500)).await;
+        }
+        Fault::QuicOutage { ms, flows } => {
+            let now = now_ns();
+            world::with(|w| {
+                w.knobs.udp_partition_ns = (now, now + *ms * 1_000_000);
+                if !w.knobs.udp_fault_ports.contains(&SERVER_PORT) {
+                    w.knobs.udp_fault_ports.push(SERVER_PORT);
+                }
+            });
+            for k in 0..*flows as usize {
+                let mut g = Gen::new((ix * 5 + k) as u64, 91);
+                let mut fl = gen_flow(&mut g, 160 + ix * 4 + k, LocalHs::Socks5V4, Ending::AppAfterAll, 600);
+                fl.start_ms = 0;
+                let obs = Arc::new(Mutex::new(FlowObs::default()));
+                held._tasks.push(spawn_scoped(run_target(160 + ix * 4 + k, fl.clone(), obs.clone())));
+                tokio::task::yield_now().await;
+                held._tasks.push(spawn_scoped(run_app(160 + ix * 4 + k, fl, obs, true)));
+                tokio::time::sleep(Duration::from_millis(200)).await;
+            }
+            // the outage ends; what the transports still have to time out is theirs to time out
+            tokio::time::sleep(Duration::from_millis(*ms + 500)).await;
         }
         Fault::AbandonedFlows { n, limit, reset } => {
             // a target that accepts, reads and never answers or closes
